@@ -51,6 +51,7 @@ type strBad struct {
 }
 
 type strRes struct {
+	DG     uint64   `json:"dg"`
 	ID     int      `json:"id"`
 	Evals  int      `json:"evals"`
 	Oracle int      `json:"oracle_disagreements"`
@@ -189,6 +190,7 @@ func strHandle(in []byte) []byte {
 		return []byte(`{"error":"bad case"}`)
 	}
 	res := strRes{ID: c.ID}
+	od := obsBegin()
 	var e map[string]interface{}
 	json.Unmarshal(c.E, &e)
 	for k := 0; k < c.M; k++ {
@@ -207,6 +209,7 @@ func strHandle(in []byte) []byte {
 			strUtf8Case(&c, &res, r, lead, trail, e)
 		}
 	}
+	res.DG = od.sum
 	out, _ := json.Marshal(res)
 	return out
 }
@@ -224,6 +227,7 @@ func strQuoteCase(c *strCase, res *strRes, r *rand.Rand, lead, trail string) {
 	in := []byte(s)
 	// encoder.Quote: a literal that decodes back to the input
 	q := encoder.Quote(s)
+	obsAdd("Quote", q)
 	res.Evals++
 	if len(q) < 2 || q[0] != '"' || q[len(q)-1] != '"' {
 		res.bad(c, "encoder.Quote", "not_a_literal", in, "", q)
@@ -247,6 +251,7 @@ func strQuoteCase(c *strCase, res *strRes, r *rand.Rand, lead, trail string) {
 		dst := make([]byte, len(prefix), len(prefix)+r.Intn(8))
 		copy(dst, prefix)
 		got := encoder.HTMLEscape(dst, []byte(q))
+		obsAdd("HTMLEscape", got)
 		res.Evals++
 		if !bytes.Equal(got, wb.Bytes()) {
 			res.bad(c, "encoder.HTMLEscape", "differs_from_std", in, wb.String(), string(got))
@@ -258,6 +263,7 @@ func strQuoteCase(c *strCase, res *strRes, r *rand.Rand, lead, trail string) {
 		api  sonic.API
 	}{{"ConfigStd", sonic.ConfigStd}, {"ConfigDefault", sonic.ConfigDefault}} {
 		mb, err := cfg.api.Marshal(s)
+		obsAdd(cfg.name, "Marshal", mb, err)
 		res.Evals++
 		if err != nil {
 			res.bad(c, cfg.name+".Marshal", "error", in, "", err.Error())
@@ -350,6 +356,7 @@ func strUnquoteCase(c *strCase, res *strRes, r *rand.Rand, lead, trail string, e
 	// re-concretise deterministically from the same bytes instead (see outBytes)
 	wantErr, want := expect("rep")
 	got, gerr := unquote.String(t)
+	obsAdd("unquote", got, gerr)
 	res.Evals++
 	if wantErr != (gerr != 0) {
 		res.bad(c, "unquote.String", "error_mismatch", in, fmt.Sprint("err=", wantErr), fmt.Sprint("err=", gerr != 0, " ", got))
@@ -367,6 +374,7 @@ func strUnquoteCase(c *strCase, res *strRes, r *rand.Rand, lead, trail string, e
 			// through Unmarshal, default (replace) policy
 			var s1 string
 			err := sonic.ConfigStd.UnmarshalFromString(`"`+t+`"`, &s1)
+			obsAdd("std.Unmarshal", s1, err)
 			res.Evals++
 			if (err != nil) != wantErr {
 				res.bad(c, "ConfigStd.Unmarshal", "error_mismatch", in, fmt.Sprint("err=", wantErr), fmt.Sprint(err))
@@ -375,6 +383,7 @@ func strUnquoteCase(c *strCase, res *strRes, r *rand.Rand, lead, trail string, e
 			}
 			var s2 string
 			err = sonic.UnmarshalString(`"`+t+`"`, &s2)
+			obsAdd("Unmarshal", s2, err)
 			res.Evals++
 			if (err != nil) != wantErr {
 				res.bad(c, "Unmarshal", "error_mismatch", in, fmt.Sprint("err=", wantErr), fmt.Sprint(err))
@@ -400,6 +409,7 @@ func strUnquoteCase(c *strCase, res *strRes, r *rand.Rand, lead, trail string, e
 	d.UseUnicodeErrors()
 	var s3 string
 	err := d.Decode(&s3)
+	obsAdd("UseUnicodeErrors", s3, err)
 	res.Evals++
 	if !raw {
 		if (err != nil) != wantErrS {
@@ -468,6 +478,7 @@ func strUtf8Case(c *strCase, res *strRes, r *rand.Rand, lead, trail string, e ma
 		return
 	}
 	res.Evals += 3
+	obsAdd("Validate", sutf8.Validate(b), sutf8.ValidateString(string(b)))
 	if got := sutf8.Validate(b); got != wantValid {
 		res.bad(c, "utf8.Validate", "wrong_verdict", b, fmt.Sprint(wantValid), fmt.Sprint(got))
 	}
@@ -476,6 +487,7 @@ func strUtf8Case(c *strCase, res *strRes, r *rand.Rand, lead, trail string, e ma
 	}
 	prefix := []byte("pre")
 	got := sutf8.CorrectWith(append([]byte{}, prefix...), b, "�")
+	obsAdd("CorrectWith", got)
 	if !bytes.Equal(got, append(append([]byte{}, prefix...), want...)) {
 		res.bad(c, "utf8.CorrectWith", "wrong_output", b, string(want), string(got))
 	}
@@ -513,6 +525,7 @@ func strMain(args []string) int {
 	m := fs.Int("m", 4, "concretisations")
 	workers := fs.Int("workers", runtime.NumCPU(), "workers")
 	envs := fs.String("env", "", "comma separated KEY=VALUE for the workers")
+	digests := fs.String("digests", "", "write per-case observation digests to this file")
 	fs.Parse(args)
 	t0 := time.Now()
 	f, err := os.Open(*dump)
@@ -521,6 +534,7 @@ func strMain(args []string) int {
 		return 2
 	}
 	defer f.Close()
+	var dgs digestFile
 	S := strSummary{BadBySig: map[string]int{}}
 	var env []string
 	if *envs != "" {
@@ -545,6 +559,7 @@ func strMain(args []string) int {
 				return
 			}
 			S.Cases++
+			dgs.add(r.ID, r.DG)
 			S.Evals += r.Evals
 			S.Oracle += r.Oracle
 			var c strCase
@@ -574,6 +589,7 @@ func strMain(args []string) int {
 		return 2
 	}
 	S.WallS = time.Since(t0).Seconds()
+	dgs.write(*digests)
 	b, _ := json.MarshalIndent(S, "", " ")
 	if *out != "" {
 		os.WriteFile(*out, b, 0o644)
